@@ -297,6 +297,21 @@ impl Property for C13 {
             ensure!(r.is_ok() && w.got == buf, "bytes-lost-on-short-writes", "a writer accepting at most {} bytes per call got {:?} ({:?}) instead of {:?}", max, w.got, r, buf);
             rep.class("short-writes");
         }
+        // a peer that stalls once in the middle (WouldBlock), or a signal that interrupts one write (Interrupted, which write_all retries
+        // by contract): either the error is reported or every byte arrives exactly once
+        if src.chance(50) && !buf.is_empty() {
+            let accept = src.below(buf.len() + 1);
+            let kind = if src.chance(128) { std::io::ErrorKind::WouldBlock } else { std::io::ErrorKind::Interrupted };
+            let mut w = crate::iohelp::StallWriter { accept, kind, stalled: false, got: vec![] };
+            let r = ProtobufEncoder::new().encode(&lib, &mut w);
+            ensure!(
+                r.is_err() || w.got == buf,
+                "stream-corrupted-after-a-stalled-write",
+                "a writer that answered {:?} once after {} bytes: encode returned {:?} and the writer holds {:?} instead of {:?}",
+                kind, accept, r, w.got, buf
+            );
+            rep.class("writer-stalls-once");
+        }
         let got = match stream(&buf) {
             Ok(g) => g,
             Err(e) => return fail("undecodable-stream", format!("{} ;; bytes={:?} ;; input={:?}", e, buf, want)),
